@@ -325,3 +325,66 @@ Proof.
   assert (Lm : length (midpoints ar tt) = (length tt - 1)%nat) by (rewrite midpoints_length; lia).
   destruct (lookup (nth j qids 0%Z) samples); unfold interp; rewrite <- ?Lm; auto.
 Qed.
+
+(* ======================= inside the sampled range ======================= *)
+Lemma grid_from_length z n : length (grid_from ar z n) = n.
+Proof. revert z; induction n; intros z; cbn; auto. Qed.
+
+Lemma grid_from_nth z n i : (i < n)%nat -> nth i (grid_from ar z n) 0 = IZR (z + Z.of_nat i).
+Proof.
+  revert z i; induction n; intros z i Hi; [lia|]. destruct i.
+  - cbn. rewrite Z.add_0_r. reflexivity.
+  - cbn [grid_from nth]. rewrite IHn by lia. f_equal. lia.
+Qed.
+
+Lemma grid_from_incr z n : incr (grid_from ar z n).
+Proof.
+  revert z; induction n; intros z; [exact I|]. destruct n; [exact I|].
+  change (IZR z < IZR (z + 1) /\ incr (grid_from ar (z + 1) (S n))). split; [apply IZR_lt; lia| apply IHn].
+Qed.
+
+Lemma grid_ends md : (2 <= Z.to_nat md)%nat ->
+  nth 0 (grid md) 0 = 0 /\ nth (length (grid md) - 1) (grid md) 0 = IZR md - 1.
+Proof.
+  intros H. unfold grid. rewrite grid_from_length. rewrite !grid_from_nth by lia. split.
+  - reflexivity.
+  - rewrite Z.add_0_l. rewrite <- minus_IZR. f_equal. lia.
+Qed.
+
+(* with the current source (all rows clamped, all atoms): for an atom whose amplitude samples are >= 0, at every
+   step whose midpoint lies inside the sampled range [0, md-1] the amplitude IS the interpolation (the clamp
+   is inactive there) and is >= 0 *)
+Lemma amp_inside_is_interpolation (samples : list (Z * sampleR)) qids tt md om de ph :
+  extract_with ar true true samples qids tt md = Ok (om, de, ph) ->
+  forall j s, (j < length qids)%nat -> lookup (nth j qids 0%Z) samples = Some s ->
+  Forall (fun v => 0 <= v) (sel_amp s) ->
+  forall k, (S k < length tt)%nat -> 0 <= nth k (midpoints ar tt) 0 <= IZR md - 1 ->
+  nth k (nth j om []) 0 = evalL Lfix (grid md) (sel_amp s) (nth k (midpoints ar tt) 0) /\
+  0 <= evalL Lfix (grid md) (sel_amp s) (nth k (midpoints ar tt) 0).
+Proof.
+  intros H j s Hj Hs F k Hk Hin. apply extract_ok_inv in H. destruct H as (_ & H & _ & _).
+  unfold quantity in H. apply mapM_ok in H. destruct H as [_ N]. specialize (N j 0%Z [] Hj).
+  rewrite Hs in N. unfold column in N.
+  destruct (pchip_call ar (grid md) (sel_amp s) (midpoints ar tt)) as [w| |] eqn:E; cbn in N; try discriminate.
+  apply call_ok_inv in E. destruct E as (-> & HL & H2 & Hi). inversion N as [N']. clear N N'.
+  assert (G : (2 <= Z.to_nat md)%nat) by (unfold grid in H2; rewrite grid_from_length in H2; exact H2).
+  destruct (grid_ends md G) as [G0 G1].
+  assert (P : 0 <= evalL Lfix (grid md) (sel_amp s) (nth k (midpoints ar tt) 0)).
+  { apply fixed_nonneg_inside; auto. rewrite G0, G1. exact Hin. }
+  split; [|exact P].
+  assert (Lk : (k < length (midpoints ar tt))%nat) by (rewrite midpoints_length; lia).
+  rewrite nth_indep with (d' := clamp0 ar (pchip_eval ar (grid md) (sel_amp s) 0))
+    by (rewrite !map_length; exact Lk).
+  rewrite map_map. rewrite (map_nth (fun x => clamp0 ar (pchip_eval ar (grid md) (sel_amp s) x))).
+  apply clamp0_id. exact P.
+Qed.
+
+Lemma fixed_runs_example : exists om de ph, extract_with ar true true w9_samples [0%Z] w9_tt 3%Z = Ok (om, de, ph).
+Proof.
+  unfold extract_with, w9_samples, w9_tt.
+  cbn [last a_eqb a_ofZ R_arith negb]. rdec2. cbn [negb].
+  unfold quantity. cbn [lookup Z.eqb Pos.eqb mapM sel_amp sel_det sel_phase fst snd].
+  unfold column. cbn [Z.to_nat].
+  change (Pos.to_nat 3) with 3%nat. cbn [grid_from Z.add Pos.add Pos.succ a_ofZ R_arith].
+  rewrite !call_spec by (cbn; try lra; try lia). cbn [res_bind]. eauto.
+Qed.
